@@ -1338,10 +1338,15 @@ int ov_raw_seek(OggVorbis_File *vf,ogg_int64_t pos){
               ogg_int64_t granulepos=op.granulepos-vf->pcmlengths[link*2];
               if(granulepos<0)granulepos=0;
 
+              /* position within this link; a first page that is also the
+                 (short) last page can hold more decoded samples than the
+                 link is long, in which case we're at the link's start */
+              granulepos-=accblock;
+              if(granulepos<0)granulepos=0;
+
               for(i=0;i<link;i++)
                 granulepos+=vf->pcmlengths[i*2+1];
-              vf->pcm_offset=granulepos-accblock;
-              if(vf->pcm_offset<0)vf->pcm_offset=0;
+              vf->pcm_offset=granulepos;
               break;
             }
             lastblock=thisblock;
